@@ -164,3 +164,12 @@ let () =
         ^ ",\"self_recursive\":" ^ b (program_has (self_recursive ms) p)
         ^ ",\"trap\":" ^ b (trap ms d && program_has (fun n _ -> List.exists (fun x -> x = n) d) p) ^ "}"
     | _ -> raise (Bad "static"))
+
+(* C04: the lexer rule for multi-line literals.  (mlex q (cps of a text) (cps of a string)) *)
+let () =
+  register "mlex" (function
+    | L [ _; q; t; s ] ->
+        let q = n_of_int (as_int q) in
+        "{\"r\":\"ok\",\"token\":" ^ (match lex_multi q (as_text t) with Some (tok, _) -> jtext tok | None -> "null")
+        ^ ",\"occurs\":" ^ (if occurs3 q (as_text s) then "true" else "false") ^ "}"
+    | _ -> raise (Bad "mlex"))
